@@ -231,6 +231,17 @@ func features(xs []*S, c fctx, f map[string]bool, top bool) {
 			if c.breakTo != nil && c.breakTo.K == "switch" {
 				f["continue-inside-switch"] = true
 			}
+		case "panic":
+			f["panic:"+s.Form] = true
+			if c.loop != nil {
+				f["panic-in-loop"] = true
+			}
+			if c.breakTo != nil && c.breakTo.K == "switch" {
+				f["panic-in-switch"] = true
+			}
+			if s.N == 0 {
+				f["panic-unguarded"] = true
+			}
 		case "return":
 			f["return"] = true
 			if c.loop != nil {
@@ -316,6 +327,30 @@ func (r *rctx) stmt(s *S) {
 		r.switchStmt(s)
 	case "for":
 		r.forStmt(s)
+	case "panic":
+		guard := s.N != 0
+		if guard {
+			r.line("if tr.B(%d) {", s.ID*10)
+			r.ind++
+		}
+		switch s.Form {
+		case "index":
+			r.line("tr.E(%d)", s.ID*10+1)
+			r.line("tr.U([]int{1}[2+tr.Zero()])")
+		case "nilmap":
+			r.line("var pm%d map[int]int", s.ID)
+			r.line("pm%d[%d] = 1", s.ID, s.ID)
+		case "div":
+			r.line("tr.U(%d / tr.Zero())", s.ID)
+		case "error":
+			r.line("panic(tr.V(%d, fmt.Errorf(\"err%d\")))", s.ID, s.ID)
+		default:
+			r.line("panic(tr.V(%d, \"boom%d\"))", s.ID, s.ID)
+		}
+		if guard {
+			r.ind--
+			r.line("}")
+		}
 	case "break":
 		r.line("break")
 	case "continue":
@@ -443,6 +478,13 @@ func (r *rctx) forStmt(s *S) {
 		} else {
 			r.line("for %s; tr.B(%d); %s {", init, s.ID*10, post)
 		}
+	case "3cn": // three clauses without a condition: left by break/return in the body
+		r.line("for %s := 0; ; %s++ {", v, v)
+		r.ind++
+		r.line("if %s >= %d {", v, bound+1)
+		r.line("\tbreak")
+		r.line("}")
+		r.ind--
 	case "3cb": // three clauses, counted and tape-steered
 		r.line("for %s := 0; %s < %d && tr.B(%d); %s++ {", v, v, bound+1, s.ID*10, v)
 	default: // 3c: three clauses, counted; the counter is advanced by the post statement or, if the post yields, in the body
@@ -491,13 +533,17 @@ func Program(name string, xs []*S, st render.Style, salt string) *e1.Program {
 	xs = cloneList(xs)
 	n := 0
 	number(xs, &n)
-	return &e1.Program{
+	p := &e1.Program{
 		Name:     name,
 		Neutral:  Render(xs, true),
 		Features: Features(xs),
 		Shape:    ShapeHash(xs, salt),
 		Style:    st,
 	}
+	if strings.Contains(p.Neutral, "fmt.") {
+		p.Imports = []string{"fmt"}
+	}
+	return p
 }
 
 // ---------------------------------------------------------------- well-formedness
@@ -511,7 +557,7 @@ type wctx struct {
 // terminator in the same list; an infinite loop must contain a yield or an exit.
 func wellFormed(xs []*S, c wctx) bool {
 	for i, s := range xs {
-		if i < len(xs)-1 && (s.K == "break" || s.K == "continue" || s.K == "return") {
+		if i < len(xs)-1 && (s.K == "break" || s.K == "continue" || s.K == "return" || (s.K == "panic" && s.N == 0)) {
 			return false
 		}
 		switch s.K {
@@ -579,7 +625,7 @@ func hasExit(xs []*S) bool { return hasExit2(xs, true) }
 
 func hasExit2(xs []*S, breakCounts bool) bool {
 	for _, s := range xs {
-		if s.K == "return" || (s.K == "break" && breakCounts) {
+		if s.K == "return" || s.K == "panic" || (s.K == "break" && breakCounts) {
 			return true
 		}
 		switch s.K {
@@ -638,6 +684,7 @@ func enumStmt(n int, emit func(*S)) {
 		emit(&S{K: "for", Form: "3c", Post: "inc", A: a, N: 2})
 		emit(&S{K: "for", Form: "cond", A: a})
 		emit(&S{K: "for", Form: "inf", A: a})
+		emit(&S{K: "for", Form: "3cn", A: a, N: 1})
 		emit(&S{K: "for", Form: "3c", Post: "yield", A: a, N: 2})
 		emit(&S{K: "switch", Form: "tag", Cases: [][]*S{a}})
 		emit(&S{K: "switch", Form: "tagless", Cases: [][]*S{a}, Def: true})
@@ -703,9 +750,11 @@ type Profile struct {
 	MaxStmts  int
 	YieldForm []string
 	EffForm   []string
+	PanicPct  int // percentage of statements that are (mostly tape-guarded) panics
 }
 
 var Ctl = Profile{Name: "ctl", MaxDepth: 4, MaxStmts: 5, YieldForm: []string{"call", "call", "lit", "var", "expr"}, EffForm: []string{"e", "e", "mut", "set"}}
+var Panic = Profile{Name: "panic", MaxDepth: 3, MaxStmts: 5, YieldForm: []string{"call", "var", "lit"}, EffForm: []string{"e", "set", "mut"}, PanicPct: 12}
 var Fx = Profile{Name: "fx", MaxDepth: 3, MaxStmts: 6, YieldForm: []string{"var", "expr", "call", "var"}, EffForm: []string{"mut", "set", "e", "set"}}
 
 type rgen struct {
@@ -722,7 +771,7 @@ func (g *rgen) list(depth int, c wctx, max int) []*S {
 	for i := 0; i < n && g.left > 0; i++ {
 		s := g.stmt(depth, c)
 		out = append(out, s)
-		if s.K == "break" || s.K == "continue" || s.K == "return" {
+		if s.K == "break" || s.K == "continue" || s.K == "return" || (s.K == "panic" && s.N == 0) {
 			break
 		}
 	}
@@ -734,6 +783,13 @@ func (g *rgen) list(depth int, c wctx, max int) []*S {
 
 func (g *rgen) stmt(depth int, c wctx) *S {
 	g.left--
+	if g.p.PanicPct > 0 && g.rng.Intn(100) < g.p.PanicPct {
+		s := &S{K: "panic", Form: g.pick([]string{"explicit", "explicit", "index", "nilmap", "div", "error"}), N: 1}
+		if g.rng.Intn(5) == 0 {
+			s.N = 0
+		}
+		return s
+	}
 	r := g.rng.Intn(100)
 	if depth >= g.p.MaxDepth && r >= 40 {
 		r = g.rng.Intn(40)
@@ -787,7 +843,7 @@ func (g *rgen) stmt(depth int, c wctx) *S {
 		}
 		return s
 	case r < 94:
-		s := &S{K: "for", Form: g.pick([]string{"3c", "3c", "3cb", "cond", "inf"}), N: 1 + g.rng.Intn(3)}
+		s := &S{K: "for", Form: g.pick([]string{"3c", "3c", "3cb", "cond", "inf", "3cn"}), N: 1 + g.rng.Intn(3)}
 		if s.Form == "3c" {
 			s.Post = g.pick([]string{"inc", "inc", "inc", "yield", "eff"})
 			if g.rng.Intn(6) == 0 {
